@@ -601,6 +601,42 @@ class Extractor:
                 r1 += 1
             ret_span = (r0, r1 - 1)
         contracts = self.contracts_for(path)
+        # parameter names (self excluded) for the %1, %2 ... placeholders of pattern contracts
+        pnames = []
+        j = popen + 1
+        seg = []
+        while j <= pclose:
+            t = toks[j]
+            if j == pclose or (t.text == ',' ):
+                names = [x for x in seg]
+                if names:
+                    # pattern up to ':'
+                    pat = []
+                    for x in names:
+                        if x.text == ':':
+                            break
+                        pat.append(x)
+                    idents = [x.text for x in pat if x.kind == 'ident' and x.text not in ('mut', 'ref')]
+                    if idents and idents[-1] != 'self':
+                        pnames.append(idents[-1])
+                seg = []
+                j += 1
+                continue
+            if t.kind == 'open':
+                c = match_close(toks, j)
+                seg += toks[j:c + 1]
+                j = c + 1
+                continue
+            if t.text == '<':
+                e = self.skip_angle(toks, j)
+                seg += toks[j:e]
+                j = e
+                continue
+            seg.append(t)
+            j += 1
+        def subst(txt):
+            return re.sub(r'%(\d)', lambda m: pnames[int(m.group(1)) - 1] if int(m.group(1)) <= len(pnames) else m.group(0), txt)
+        self._subst = subst
         external = path in pol.external
         edits = self.common_edits(ctx, toks, it.start, it.end)
         # visibility
@@ -638,7 +674,7 @@ class Extractor:
                 return
             clause_txt.append(('\n    %s\n' % kw, ('gen', kw)))
             for cl in clauses:
-                clause_txt.append(('        %s,\n' % cl.text, ('inj', cl.label, cl.src, kw)))
+                clause_txt.append(('        %s,\n' % subst(cl.text), ('inj', cl.label, cl.src, kw)))
         reqs = [cl for c in contracts for cl in c.requires]
         enss = [cl for c in contracts for cl in c.ensures]
         decs = [cl for c in contracts for cl in c.decreases]
@@ -666,6 +702,8 @@ class Extractor:
             edits = [e for e in edits if not (toks[it.body_open].end <= e.start and e.end <= toks[it.body_close].start
                                               and not (e.start == e.end == toks[it.body_open].start))]
             edits.append(Edit(toks[it.body_open].end, toks[it.body_close].start, ' unimplemented!() ', ('gen', 'external-body')))
+        if ctx.pop('_no_measure', False):
+            attrs.append('#[verifier::exec_allows_no_decreases_clause]')
         # record
         props = sorted({p for c in contracts for p in c.props})
         self.out.add(''.join(a + '\n' for a in attrs), ('gen', 'attrs'))
@@ -677,8 +715,14 @@ class Extractor:
         fr['end'] = self.out.pos
         self.out.fn_ranges.append(fr)
         self.out.add('\n', ('gen', 'nl'))
+        loop_labels = [[cl.label, cl.src, 'invariant'] for c in contracts for ls in c.loops.values() for cl in (ls.invariant + ls.invariant_except_break + ls.ensures)]
         self.report['fns'].append({'path': path, 'file': relfile, 'line': it.line, 'external': external,
-                                   'contracted': bool(contracts), 'props': props})
+                                   'contracted': bool(contracts), 'props': props, 'module': ctx['mod'],
+                                   'end_line': it.line + src.count('\n', it.start, it.end),
+                                   'requires': [[cl.label, cl.src] for cl in reqs],
+                                   'ensures': [[cl.label, cl.src] for cl in enss],
+                                   'invariants': loop_labels,
+                                   'has_decreases': bool(decs)})
 
     def find_loops(self, toks: List[Tok], lo: int, hi: int):
         """Return [(kw_index, body_open_index, body_close_index)] in source order within toks[lo:hi]."""
@@ -717,14 +761,19 @@ class Extractor:
             for n_, ls in c.loops.items():
                 loop_specs.setdefault(n_, []).append(ls)
         for n_ in loop_specs:
+            if n_ == 0:
+                continue
             if n_ < 1 or n_ > len(loops):
                 self.report['unanchored'].append({'what': '%s loop %d' % (path, n_), 'src': loop_specs[n_][0].invariant[0].src if loop_specs[n_][0].invariant else ''})
         for idx, (kw, bo, bc) in enumerate(loops):
             ordinal = idx + 1
-            specs = loop_specs.get(ordinal, [])
+            specs = loop_specs.get(ordinal, []) + loop_specs.get(0, [])
             kwtok = toks[kw]
+            has_dec = any(sp.decreases for sp in specs)
             self.report['loops'].append({'fn': path, 'ordinal': ordinal, 'kind': kwtok.text, 'file': relfile, 'line': kwtok.line,
-                                         'contracted': bool(specs)})
+                                         'contracted': bool(specs), 'measure': has_dec or kwtok.text == 'for'})
+            if kwtok.text != 'for' and not has_dec:
+                ctx['_no_measure'] = True
             iter_name = None
             for s in specs:
                 if s.iter_name: iter_name = s.iter_name
@@ -758,7 +807,7 @@ class Extractor:
                 if cls:
                     clause_parts.append(('\n        %s\n' % kwname, ('gen', kwname)))
                     for cl in cls:
-                        clause_parts.append(('            %s,\n' % cl.text, ('inj', cl.label, cl.src, kwname)))
+                        clause_parts.append(('            %s,\n' % self._subst(cl.text), ('inj', cl.label, cl.src, kwname)))
             add('invariant_except_break', [cl for s in specs for cl in s.invariant_except_break])
             add('invariant', [cl for s in specs for cl in s.invariant])
             add('ensures', [cl for s in specs for cl in s.ensures])
